@@ -30,6 +30,17 @@ CFG4 = [
 ]
 
 
+def buffered_writes_off(cfg):
+    """File bytes may only be compared before/after a call when every insert has been flushed (the default)."""
+    return cfg.get("csv", {}).get("flush_on_insert", True)
+
+
+def option_configs(tier):
+    """Non-default storage options for the content checks: writes stay buffered (flush_on_insert=False)."""
+    return [{"name": "csv/auto/flush_on_insert=False", "storage": "csv", "auto_index": True, "csv": {"flush_on_insert": False},
+             "D": 3 if tier == "quick" else 4}]
+
+
 def wide_configs(storages=("mem", "csv"), D=2):
     """Configurations that start from six stored points (inserted in time order, or out of order and re-indexed):
     single operations on a database larger than the BFS bound N."""
@@ -72,6 +83,7 @@ class E1Check:
         self.seed = seed
         self.alpha = self.make_alphabet(seed)
         self._ops_cache = {}
+        self._lp = {}  # ladder configuration name -> its probe operations
 
     # ---- to be specialised ---------------------------------------------------------------
     def make_alphabet(self, seed):
@@ -138,8 +150,18 @@ class E1Check:
         """Perform the transition; checks that need to record or perturb the call override this."""
         return world.apply(op)
 
-    def is_probe(self, op):
-        """Probe transitions are executed and checked but their successors are not enqueued."""
+    def is_probe(self, op, cfg):
+        """Probe transitions are executed and checked but their successors are not enqueued.
+
+        Decided per configuration and independent of the order in which a worker meets configurations, so
+        that a recorded violation replays through the same oracle path.
+        """
+        self.ops(cfg)  # builds the tables
+        if cfg.get("ladder"):
+            return op in self._lp.get(cfg["name"], ())
+        return self.is_std_probe(op)
+
+    def is_std_probe(self, op):
         return False
 
     def initial_contents(self, cfg):
